@@ -8,7 +8,7 @@ use crate::codec::{self, Api, EngineKind, RateKind};
 use crate::gen::{self, Class};
 use crate::gf::{self, CodeRate, Generator};
 use crate::hooks::Poison;
-use crate::util::{hex, jobj, jstr, run_cases, Agg, CaseOut, Rng, RunCfg};
+use crate::util::{hex, jobj, jstr, run_cases, run_indexed, Agg, CaseOut, Rng, RunCfg};
 
 pub fn run(cfg: &RunCfg, agg: &Mutex<Agg>) {
     run_cases(agg, cfg, "closed-form", crate::count(cfg, 2500, 60_000), |cs, out| {
@@ -29,12 +29,29 @@ pub fn run(cfg: &RunCfg, agg: &Mutex<Agg>) {
         let mut rng = Rng::new(cs);
         rs16_case(&mut rng, out);
     });
-    // exhaustive small grid at 2-byte shards (thorough only)
+    // exhaustive small grid at 2-byte shards, every row and slot (thorough only)
     if cfg.thorough {
-        run_cases(agg, cfg, "grid64", 64 * 64, |cs, out| {
-            // case seeds are not meaningful here; derive (k, r) from a counter
-            let _ = cs;
-            let _ = out;
+        run_indexed(agg, cfg, "grid64", 64 * 64, |i, out| {
+            let k = (i / 64) as usize + 1;
+            let r = (i % 64) as usize + 1;
+            let mut rng = Rng::new(i ^ cfg.seed);
+            for rate in RateKind::ALL {
+                if !gen::rate_ok(rate, k, r) {
+                    continue;
+                }
+                let eng = *rng.pick(&EngineKind::all());
+                let originals = gen::originals(&mut rng, k, 2);
+                let desc = format!("grid k={k} r={r} rate={} engine={}", rate.name(), eng.name());
+                match codec::encode_fresh(Api::Rate(rate, eng), k, r, 2, &originals) {
+                    Err(e) => out.violate("C02:encode-err", format!("{desc}: {e}")),
+                    Ok(rec) => match check_against_closed_form(&mut rng, code_rate(rate, k, r), k, r, &originals, &rec, usize::MAX) {
+                        Ok(n) => out.evals += n,
+                        Err(m) => out.violate(format!("C02:closed-form-mismatch:{:?}", code_rate(rate, k, r)), format!("{desc}: {m}")),
+                    },
+                }
+                out.nontrivial_key(&desc);
+            }
+            out.tag("grid64");
         });
     }
 }
